@@ -378,8 +378,15 @@ def run(P, rep, tier):
     r_unary_operators(P, rep, 'R01.14')
     rep.rule('R01.15', '++ and --: for every integer object type, pointers and bit-fields the tree built for the prefix form yields the new value and the tree built for the postfix form yields the value the object had before, and both store (T)(x +/- 1) (C11 6.5.2.4, 6.5.3.1); decided by evaluating the built tree on boundary values', floor=30)
     r_incdec(P, rep, 'R01.15')
-    rep.rule('R01.16', 'integer promotions of bit-field operands (C11 6.3.1.1p2): a bit-field of type _Bool/int/unsigned whose values all fit an int is an int in arithmetic, comparisons, shifts and unary operators, whatever its declared type', floor=12)
+    rep.rule('R01.16', 'integer promotions of bit-field operands (C11 6.3.1.1p2): a bit-field of type _Bool/int/unsigned whose values all fit an int is an int in arithmetic, comparisons, shifts and unary operators, whatever its declared type; so is the value of an assignment, compound assignment, ++/-- or comma expression that yields a bit-field, but not an explicit cast of it', floor=30)
     r_bitfield_operands(P, rep, 'R01.16')
+    from ..lib_c01unary import r_bitfield_values, r_vla_size_arith
+    r_bitfield_values(P, rep, 'R01.16')
+    rep.rule('R01.17', 'the size of a variable length array type - the value of sizeof and the number of bytes allocated - is length * element size computed in size_t, whatever the integer type of the length expression (C11 6.5.3.4p2,p5); decided by evaluating the tree compute_vla_size builds on boundary lengths', floor=20)
+    r_vla_size_arith(P, rep, 'R01.17')
+    from ..lib_types import r_integer_compatibility
+    rep.rule('R01.18', 'the type of an integer expression as _Generic sees it: is_compatible holds between an integer type and itself only (C11 6.2.7p1), and between an enumerated type and exactly the integer type it is represented as (6.7.2.2p4)', floor=80)
+    r_integer_compatibility(P, rep, 'R01.18')
     from .c16 import r_atomic_operand_type
     r_atomic_operand_type(P, rep, 'R01.4')
     # sizeof / _Alignof yield size_t (unsigned long): every form of the operator (type name, expression, VLA) - C08 R08.4's rule, re-used
